@@ -101,6 +101,21 @@ def _run_task(t):
                 'left': [], 'wall': time.time() - t0}
 
 
+def _confirm_task(t):
+    """concrete re-execution of a counterexample in the interpreter (kernel harnesses)"""
+    (root, args, opts, vector, decisions, jpath) = t
+    try:
+        from .engine import Stats
+        E = _get_engine(opts, jpath)
+        E.stats = Stats()
+        E.inconclusive = []
+        E.obs_budget = 0
+        tags, out = E.run_concrete(root, args, vector, decisions)
+        return {'failures': tags, 'outcome': out, 'note': 'not replayed natively (kernel-mode harness): confirmed by concrete re-execution in the interpreter'}
+    except Exception as e:
+        return {'failures': [], 'outcome': 'error', 'error': str(e)}
+
+
 # ----------------------------------------------------------------------------- native replay
 REPLAY_TEST = '''package PKGNAME
 
@@ -244,7 +259,7 @@ def run_check(spec, tier='quick', seed=0, jobs=None, keep=False, verbose=True):
         extra = prep.get('extra') if prep else None
         if extra is None:
             extra = spec.generate(tier) if hasattr(spec, 'generate') else {}
-        pkgs = R.build_overlay(overlay, spec.HARNESS_FILES, extra, getattr(spec, 'CLOCK_PKGS', ()))
+        pkgs = R.build_overlay(overlay, spec.HARNESS_FILES, extra, getattr(spec, 'CLOCK_PKGS', ()), getattr(spec, 'KERNEL_PKGS', ()))
         groups = prep.get('groups') if prep else None
         if not groups:
             groups = [{'name': None, 'pkgs': sorted(set(pkgs) | set(getattr(spec, 'EXTRA_PKGS', []))),
@@ -366,8 +381,6 @@ def run_check(spec, tier='quick', seed=0, jobs=None, keep=False, verbose=True):
                     chunk = left[i::k]
                     if chunk:
                         submit(t, chunk)
-        pool.terminate()
-        pool.join()
         if timed_out:
             inconclusive.append('time budget exceeded with %d tasks pending' % pending)
         log('[%s] explored: paths=%d instrs=%d obligations=%d discharged=%d queries=%d solver=%.1fs violations=%d inconclusive=%d errors=%d (%.1fs)' % (
@@ -399,6 +412,28 @@ def run_check(spec, tier='quick', seed=0, jobs=None, keep=False, verbose=True):
             if seen_v[key] <= getattr(spec, 'REPLAYS_PER_TAG', 3):
                 by_pkg.setdefault(v['task'].pkg, []).append(('viol', v))
         skip_native = os.environ.get('VERIF_SKIP_NATIVE') == '1'
+        if getattr(spec, 'NATIVE', True) is False:
+            # kernel-mode harnesses: confirm by concrete re-execution in the interpreter
+            for pkg, items in list(by_pkg.items()):
+                for kind, x in items:
+                    if kind != 'viol':
+                        continue
+                    t = x['task']
+                    r = pool.apply(_confirm_task, ((t.full_root(), t.args, t.opts, x['vector'], x.get('choices', []), jpaths.get(t.group, jpath)),))
+                    x['native'] = r
+                    rep = (x['tag'] in r.get('failures', [])) if x['kind'] == 'assert' else (
+                        r.get('outcome') == 'panic' or any(f.startswith('panic:') for f in r.get('failures', [])))
+                    if rep:
+                        k = match_known(known, pid, t.root, x['tag'], t.args, x['vector'])
+                        if k is not None:
+                            known_hits.append((k, x))
+                        else:
+                            confirmed.append(x)
+                    else:
+                        spurious.append(x)
+            by_pkg = {}
+        pool.terminate()
+        pool.join()
         obs_pkgs = sorted(p for p, it in by_pkg.items() if any(x[0] == 'obs' for x in it))
         maxp = getattr(spec, 'NATIVE_PKGS_MAX', None)
         if maxp and len(obs_pkgs) > maxp:
@@ -590,7 +625,7 @@ def replay_file(path):
         extra = prep.get('extra') if prep else None
         if extra is None:
             extra = spec.generate('quick') if hasattr(spec, 'generate') else {}
-        R.build_overlay(overlay, spec.HARNESS_FILES, extra, getattr(spec, 'CLOCK_PKGS', ()))
+        R.build_overlay(overlay, spec.HARNESS_FILES, extra, getattr(spec, 'CLOCK_PKGS', ()), getattr(spec, 'KERNEL_PKGS', ()))
         res = native_replay(overlay, work, d['pkg'], [{'harness': d['harness'], 'args': d['args'], 'vector': d['vector']}])
         print(json.dumps(res[0], indent=1))
         r = res[0]
